@@ -11,6 +11,26 @@ from .env import HarnessError
 REL_TOL = 2e-5
 
 
+FLOOR = 1.0     # absolute scale below which differences are compared absolutely; checks set it to delta_empty
+
+
+class scale_floor:
+    """`with oracle.scale_floor(delta_empty):` - disorders live on the scale of delta_empty, so the absolute part of every
+    tolerance follows it (otherwise comparisons would be vacuous for a tiny delta_empty)"""
+
+    def __init__(self, value):
+        self.value = float(value) if value and value > 0 else 1.0
+
+    def __enter__(self):
+        global FLOOR
+        self.prev, FLOOR = FLOOR, self.value
+
+    def __exit__(self, *exc):
+        global FLOOR
+        FLOOR = self.prev
+        return False
+
+
 def close(a, b, rel=REL_TOL, scale=None):
     a = float(a)
     b = float(b)
@@ -18,7 +38,7 @@ def close(a, b, rel=REL_TOL, scale=None):
         return True
     if math.isnan(a) or math.isnan(b) or math.isinf(a) or math.isinf(b):
         return False
-    s = max(1.0, abs(b)) if scale is None else scale
+    s = max(FLOOR, abs(b)) if scale is None else scale
     return abs(a - b) <= rel * s
 
 
@@ -380,6 +400,8 @@ def optimum_milp(per, costs, cover=False):
             b += 1
     A = csc_matrix((np.ones(len(rows)), (rows, cols)), shape=(nunits, len(tc)))
     cons = LinearConstraint(A, lb=np.ones(nunits), ub=(np.full(nunits, np.inf) if cover else np.ones(nunits)))
+    tc_scale = max(tc) if tc and max(tc) > 0 else 1.0      # the solver's tolerances are absolute: costs are normalised
+    tc = [x / tc_scale for x in tc]
     res = milp(c=np.array(tc), constraints=[cons], integrality=np.ones(len(tc)), bounds=Bounds(0, 1),
                options={"mip_rel_gap": 0.0, "presolve": True, "time_limit": MILP_TIME_LIMIT})
     # status 0: optimal; 1: time limit (highly symmetric instances) - both bounds stay valid, the check is
@@ -401,7 +423,7 @@ def optimum_milp(per, costs, cover=False):
     if lower is None or not np.isfinite(lower):
         lower = upper if res.status == 0 else 0.0
     lower = min(float(lower), upper)
-    return upper, lower
+    return upper * tc_scale, lower * tc_scale
 
 
 MILP_TIME_LIMIT = 6.0
